@@ -7,7 +7,7 @@ CONSTANTS
   WhereC = {"body", "resource"}
   ViaC = {"data", "item", "text", "props", "mem", "doc"}
   StartNew = TRUE
-  SchemesC = {"dense", "sparse", "nonrid", "styleslast", "stylesmid", "nostyles", "collide", "collide1", "gap"}
+  SchemesC = {"sparse", "nonrid", "styleslast", "stylesmid", "nostyles", "collide"}
   ContentsC = {"mix", "min"}
   FlagsC = {TRUE}
   AbsC = {FALSE}
